@@ -100,7 +100,7 @@ Section GOOD.
   Lemma GoodT_fresh t now clock tr j :
     0 <= now -> GoodT t (mkThread READY 0 None 0 j false 0 0 [] 0 false 0 false false) now clock tr.
   Proof.
-    intros Hn. constructor; simpl; [exact Hn|discriminate| |congruence|discriminate|congruence|reflexivity].
+    intros Hn. constructor; simpl; [lia|discriminate| |congruence|discriminate|congruence|reflexivity].
     apply usleep_clauses_k_nil. reflexivity.
   Qed.
 
